@@ -19,15 +19,15 @@ package main
 //@   requires len(raw) >= 2 * (len(out.Pix) * roww(out))
 //@   modifies pix(out), out.Status
 //@   loop 1 invariant -1 <= rangeindex_1 && rangeindex_1 < len(out.Pix) && i == 2 * ((rangeindex_1 + 1) * roww(out))
-//@   loop 1 invariant [C13] forall yy int, xx int :: 0 <= yy && yy <= rangeindex_1 && 0 <= xx && xx < roww(out) ==> out.Pix[yy][xx] == wordLE(raw, yy * roww(out) + xx)
+//@   loop 1 invariant [C11,C13] forall yy int, xx int :: 0 <= yy && yy <= rangeindex_1 && 0 <= xx && xx < roww(out) ==> out.Pix[yy][xx] == wordLE(raw, yy * roww(out) + xx)
 //@   loop 1 invariant [C13] forall yy int, xx int :: 0 <= yy && yy <= rangeindex_1 && 0 <= xx && xx < roww(out) && !onEdge(out, edgePixels, yy, xx) ==> out.Pix[yy][xx] != 0
 //@   loop 2 invariant 0 <= rangeindex_1 && rangeindex_1 < len(out.Pix) && y == rangeindex_1 && -1 <= rangeindex_2 && rangeindex_2 < roww(out) && i == 2 * (y * roww(out) + rangeindex_2 + 1)
 //@   loop 2 invariant arr(row) == arr(out.Pix[y]) && off(row) == off(out.Pix[y]) && len(row) == roww(out)
-//@   loop 2 invariant [C13] forall yy int, xx int :: 0 <= yy && yy < y && 0 <= xx && xx < roww(out) ==> out.Pix[yy][xx] == wordLE(raw, yy * roww(out) + xx)
+//@   loop 2 invariant [C11,C13] forall yy int, xx int :: 0 <= yy && yy < y && 0 <= xx && xx < roww(out) ==> out.Pix[yy][xx] == wordLE(raw, yy * roww(out) + xx)
 //@   loop 2 invariant [C13] forall yy int, xx int :: 0 <= yy && yy < y && 0 <= xx && xx < roww(out) && !onEdge(out, edgePixels, yy, xx) ==> out.Pix[yy][xx] != 0
-//@   loop 2 invariant [C13] forall xx int :: 0 <= xx && xx <= rangeindex_2 ==> out.Pix[y][xx] == wordLE(raw, y * roww(out) + xx)
+//@   loop 2 invariant [C11,C13] forall xx int :: 0 <= xx && xx <= rangeindex_2 ==> out.Pix[y][xx] == wordLE(raw, y * roww(out) + xx)
 //@   loop 2 invariant [C13] forall xx int :: 0 <= xx && xx <= rangeindex_2 && !onEdge(out, edgePixels, y, xx) ==> out.Pix[y][xx] != 0
-//@   ensures [C13] result == nil ==> (forall yy int, xx int :: 0 <= yy && yy < len(out.Pix) && 0 <= xx && xx < roww(out) ==> out.Pix[yy][xx] == wordLE(raw, yy * roww(out) + xx))
+//@   ensures [C11,C13] result == nil ==> (forall yy int, xx int :: 0 <= yy && yy < len(out.Pix) && 0 <= xx && xx < roww(out) ==> out.Pix[yy][xx] == wordLE(raw, yy * roww(out) + xx))
 //@   ensures [C13] result == nil ==> (forall yy int, xx int :: 0 <= yy && yy < len(out.Pix) && 0 <= xx && xx < roww(out) && !onEdge(out, edgePixels, yy, xx) ==> out.Pix[yy][xx] != 0)
 //@   check [C13,C08] result != nil ==> 0 <= y && y < len(out.Pix) && 0 <= x && x < roww(out) && !onEdge(out, edgePixels, y, x) && wordLE(raw, y * roww(out) + x) == 0
 //@   ensures [C13] result != nil ==> dyntype(result) == typecode("*github.com/TheCacophonyProject/lepton3.BadFrameErr")
